@@ -64,20 +64,26 @@ ExpiredIdx(gs, clk) ==
   LET all == {i \in 1..Len(gs) : Expired(gs[i], clk)}
   IN IF "expiry_first_only" \in Dev /\ all # {} THEN {CHOOSE i \in all : \A j \in all : i <= j} ELSE all
 
-(* Process of a Gateable event with a non-empty id *)
+(* Process of a Gateable event with a non-empty id takes the filter's lock twice (gated.go): first the expiry sweep, *)
+(* then gating / flushing.  Sequentially the two run back to back (ProcessF); concurrent callers may get in between  *)
+(* (GatedTrace linearises SweepF and GateF separately).                                                              *)
+SweepF(gs, clk, fail) == OpenGates(gs, IdxSeq(ExpiredIdx(gs, clk), Len(gs)), fail, Acc0)
+(* g1: the groups after the sweep; nc: ComposeFrom calls the sweep made *)
+GateF(g1, clk, o, id, flush, fail, nc) ==
+  LET has == \E i \in 1..Len(g1) : g1[i].id = id
+      g2 == IF has THEN g1 ELSE Append(g1, [id |-> id, evs |-> <<>>, exp |-> clk + E])
+      k == CHOOSE i \in 1..Len(g2) : g2[i].id = id
+      evs == Append(g2[k].evs, o)
+  IN IF ~flush THEN [gs |-> [g2 EXCEPT ![k].evs = evs], ret |-> <<"nil">>, disc |-> {}]
+     ELSE IF fail = <<"compose", nc + 1>>
+          THEN [gs |-> RemoveAt(g2, k), ret |-> <<"err">>, disc |-> Range(evs)]
+          ELSE [gs |-> RemoveAt(g2, k), ret |-> <<"comp", evs>>, disc |-> {}]
 ProcessF(gs, clk, o, id, flush, fail) ==
   LET Fin(ex) ==
-        LET g1 == Keep(gs, ex.rm) IN
-        IF ex.err THEN [gs |-> g1, ret |-> <<"err">>, sent |-> ex.sent, disc |-> ex.disc, acc |-> FALSE]
-        ELSE LET has == \E i \in 1..Len(g1) : g1[i].id = id
-                 g2 == IF has THEN g1 ELSE Append(g1, [id |-> id, evs |-> <<>>, exp |-> clk + E])
-                 k == CHOOSE i \in 1..Len(g2) : g2[i].id = id
-                 evs == Append(g2[k].evs, o)
-             IN IF ~flush THEN [gs |-> [g2 EXCEPT ![k].evs = evs], ret |-> <<"nil">>, sent |-> ex.sent, disc |-> ex.disc, acc |-> TRUE]
-                ELSE IF fail = <<"compose", ex.nc + 1>>
-                     THEN [gs |-> RemoveAt(g2, k), ret |-> <<"err">>, sent |-> ex.sent, disc |-> ex.disc \cup Range(evs), acc |-> TRUE]
-                     ELSE [gs |-> RemoveAt(g2, k), ret |-> <<"comp", evs>>, sent |-> ex.sent, disc |-> ex.disc, acc |-> TRUE]
-  IN Fin(OpenGates(gs, IdxSeq(ExpiredIdx(gs, clk), Len(gs)), fail, Acc0))
+        IF ex.err THEN [gs |-> Keep(gs, ex.rm), ret |-> <<"err">>, sent |-> ex.sent, disc |-> ex.disc, acc |-> FALSE]
+        ELSE LET r == GateF(Keep(gs, ex.rm), clk, o, id, flush, fail, ex.nc)
+             IN [gs |-> r.gs, ret |-> r.ret, sent |-> ex.sent, disc |-> ex.disc \cup r.disc, acc |-> TRUE]
+  IN Fin(SweepF(gs, clk, fail))
 
 FlushAllF(gs, fail) ==
   IF gs = <<>> THEN [gs |-> gs, ret |-> <<"nil">>, sent |-> <<>>, disc |-> {}]
